@@ -407,6 +407,14 @@ def _delivers_index(prog, fname, pi, depth=0):
             elif render(r0).endswith("->length - 1") and any(k2 == "++" and render(l2).endswith("->length") and gcfg.node_dominates(s2, st)
                                                              for l2, r2, s2, k2 in query.stores(g)):
                 blocks.add(gcfg.block_of(st))
+            elif r0.k == "DeclRefExpr" and r0.j.get("dk") == "local":
+                # *out = appended;  where a callee that delivers the index was handed &appended before
+                for c in g.calls():
+                    cn = c.j.get("callee")
+                    for ai, a in enumerate(c.call_args()):
+                        if render(a) == "&" + r0.j["name"] and cn != fname and gcfg.node_dominates(c, st) and _delivers_index(prog, cn, ai, depth + 1) and not [
+                                s3 for l3, r3, s3, k3 in query.stores(g) if render(l3) == r0.j["name"]]:
+                            blocks.add(gcfg.block_of(st))
     for c in g.calls():
         cn = c.j.get("callee")
         for ai, a in enumerate(c.call_args()):
@@ -417,7 +425,60 @@ def _delivers_index(prog, fname, pi, depth=0):
     if gcfg.entry in blocks:
         return True
     succ = {(b, i): s2 for (b, i, s2) in gcfg.edges()}
-    return gcfg.success_path_avoiding(lambda lit, b, i: succ.get((b, i)) in blocks) is None
+    # (a caller that passes NULL for the out-parameter asks for nothing)
+    return gcfg.success_path_avoiding(lambda lit, b, i: succ.get((b, i)) in blocks or (
+        lit is not None and ((lit.kind == "truth" and lit.atom == pn and not lit.pol) or (lit.kind == "eq" and lit.pol and pn in (render(lit.lhs), render(lit.rhs))
+                                                                                          and 0 in (lit.lhs.const_value(), lit.rhs.const_value()))))) is None
+
+
+def _capacity_local_grows(k, kcfg, rcall):
+    """realloc(p, new_cap * sizeof(entry)) with the new capacity in a local: every definition of the local is larger than the capacity the
+    object has (a positive constant where that is 0, a multiple or sum of it where it is not, a bound it was compared against), and the
+    local is then stored as the object's capacity.  None when the size is not of that form."""
+    m = re.fullmatch(r"(\w+) \* sizeof\(struct file_entry\)|sizeof\(struct file_entry\) \* (\w+)", render(rcall.call_args()[1]))
+    if not m:
+        return None
+    v = m.group(1) or m.group(2)
+    defs = [(r2, st2) for l2, r2, st2 in k.assignments() if (l2["name"] if isinstance(l2, dict) else render(l2)) == v and r2 is not None]
+    if not defs:
+        return None
+    olds = set(["kf->alloc_length"])
+    for l2, r2, st2 in k.assignments():
+        if isinstance(l2, dict) and r2 is not None and render(r2).endswith("->alloc_length"):
+            olds.add(l2["name"])
+    published = [st2 for l2, r2, st2, k2 in query.stores(k) if k2 == "=" and render(l2).endswith("->alloc_length") and r2 is not None and render(r2) == v
+                 and kcfg.node_dominates(rcall, st2)]
+    if not published:
+        return ("unknown", "the new capacity `%s` is not stored as the object's capacity after the realloc" % v)
+    why = []
+    for r2, st2 in defs:
+        t = render(r2)
+        req = kcfg.required_literals(kcfg.block_of(st2))
+        zero = any(l.kind == "eq" and l.pol and render(l.lhs) in olds and l.rhs.const_value() == 0 or l.kind == "eq" and l.pol and render(l.rhs) in olds and l.lhs.const_value() == 0
+                   or (l.kind == "truth" and not l.pol and l.atom in olds) for l in req)
+        nonzero = any((l.kind == "eq" and not l.pol and (render(l.lhs) in olds or render(l.rhs) in olds) and 0 in (l.lhs.const_value(), l.rhs.const_value()))
+                      or (l.kind == "truth" and l.pol and l.atom in olds) for l in req)
+        cv = r2.const_value()
+        mm = re.fullmatch(r"(\w[\w>\-]*) \* (\d+)|(\d+) \* (\w[\w>\-]*)", t)
+        ma = re.fullmatch(r"(\w[\w>\-]*) \+ (\d+)", t)
+        if any(l.kind == "lt" and l.pol and render(l.lhs) in olds and render(l.rhs) == t for l in req):
+            why.append("%s behind capacity < %s" % (t, t))
+        elif cv is not None and cv > 0 and zero:
+            why.append("%s where the capacity is 0" % t)
+        elif cv is not None and cv > 0 and not zero:
+            return ("unknown", "`%s = %s`: a constant capacity where the old one is not known to be 0" % (v, t))
+        elif mm and (mm.group(1) or mm.group(4)) in olds and int(mm.group(2) or mm.group(3)) >= 2:
+            if not nonzero:
+                return ("fail", "`%s = %s` also when the capacity is 0: 0 stays 0, the array does not grow and the new entry is written outside it (objects "
+                                "created without entries: econf_newKeyFile_with_options(), a comment-only file)" % (v, t))
+            why.append("%s where it is not 0" % t)
+        elif ma and ma.group(1) in olds and int(ma.group(2)) >= 1:
+            why.append(t)
+        elif any(l.kind == "lt" and l.pol and render(l.lhs) in olds and render(l.rhs) == t for l in req):
+            why.append("%s behind capacity < %s" % (t, t))
+        else:
+            return ("unknown", "`%s = %s`: not seen to exceed the present capacity" % (v, t))
+    return ("ok", "the new capacity is larger than the old one on every path (%s)" % "; ".join(why))
 
 
 def a5(prog, ctx):
@@ -478,7 +539,15 @@ def a5(prog, ctx):
     else:
         ctx.fail("A5", "key_file_append grows at the right moment", verdict[2].where, verdict[1], key="append-growth")
     size = render(re_[0].call_args()[1])
-    if "alloc_length" in size and "sizeof(struct file_entry)" in size:
+    grown = _capacity_local_grows(k, kcfg, re_[0]) if "alloc_length" not in size and "sizeof(struct file_entry)" in size else None
+    if grown is not None:
+        if grown[0] == "ok":
+            ctx.ok("A5", "key_file_append grows by one entry", re_[0].where, "realloc(%s): %s" % (size, grown[1]))
+        elif grown[0] == "fail":
+            ctx.fail("A5", "key_file_append grows by one entry", re_[0].where, grown[1], key="append-size")
+        else:
+            ctx.inconclusive("A5", "key_file_append grows by one entry", re_[0].where, grown[1])
+    elif "alloc_length" in size and "sizeof(struct file_entry)" in size:
         incs = [st for lhs, rhs, st, kind in query.stores(k) if kind == "++" and "alloc_length" in render(lhs) and kcfg.node_dominates(st, re_[0])]
         if incs or "alloc_length + 1" in size:
             ctx.ok("A5", "key_file_append grows by one entry", re_[0].where, "realloc(%s)" % size)
@@ -505,6 +574,11 @@ def a5(prog, ctx):
                 pn9 = render(ia.children[0])
                 ka = n.calls("key_file_append")[0]
                 idx_ok = any(render(a9) == pn9 and _delivers_index(prog, "key_file_append", ai9) for ai9, a9 in enumerate(ka.call_args()))
+            elif ia.k == "DeclRefExpr" and ia.j.get("dk") == "local" and any(
+                    render(a9) == "&" + ia.j["name"] and _delivers_index(prog, "key_file_append", ai9) for ai9, a9 in enumerate(n.calls("key_file_append")[0].call_args())) \
+                    and not [s3 for l3, r3, s3, k3 in query.stores(n) if render(l3) == ia.j["name"]]:
+                # the index the append handed back in a local of this function
+                idx_ok = True
             elif ia.k == "DeclRefExpr" and ia.j.get("dk") == "local":
                 # through a local that was set to the last index after the append
                 from sa.dataflow import ReachingDefs
@@ -626,9 +700,17 @@ def a7(prog, ctx):
     cnt_key = "%s->group_count" % obj
     # the store of the new name: groups[I] = strdup(name) (directly, or of a local holding the copy)
     app = []
+    # the list under a local name: grown = realloc(obj->groups, ..); grown[n] = ..; obj->groups = grown;
+    bases = set(["%s->groups" % obj])
+    for lhs, rhs, st, kind in query.stores(s):
+        if kind == "=" and render(lhs) == "%s->groups" % obj and rhs is not None and rhs.strip().k == "DeclRefExpr" and rhs.strip().j.get("dk") == "local":
+            loc = rhs.strip().j["name"]
+            ds9 = [r9 for l9, r9, s9 in s.assignments() if (l9["name"] if isinstance(l9, dict) else render(l9)) == loc and r9 is not None]
+            if ds9 and all(r9.strip().k == "CallExpr" and r9.strip().j.get("callee") == "realloc" and render(r9.strip().call_args()[0]) == "%s->groups" % obj for r9 in ds9):
+                bases.add(loc)
     for lhs, rhs, st, kind in query.stores(s):
         l = lhs.strip()
-        if kind == "=" and l.k == "ArraySubscriptExpr" and render(l.children[0]) == "%s->groups" % obj and rhs is not None and not rhs.is_null_const():
+        if kind == "=" and l.k == "ArraySubscriptExpr" and render(l.children[0]) in bases and rhs is not None and not rhs.is_null_const():
             app.append((l, st))
     if first and app:
         v = first[0].up()
